@@ -94,6 +94,28 @@ Example C11_ex_outcomes :
   rpc_outcome (Some 100) (Some 50) (Some 20) 30 5 5 = CallerTimeoutError 20.
 Proof. vm_compute. repeat split. Qed.
 
+(** The deadline covers the whole call, the wait for a stream included: with all streams of the
+    connection in use for [w], the call ends at its deadline at the latest, and with an error at
+    exactly the deadline when that passes while it is still waiting (nothing was sent). *)
+Theorem C11_deadline_covers_stream_wait : forall out_dflt in_dflt hdr w h d1 d2 e,
+  effective out_dflt hdr = Some e ->
+  match rpc_outcome_w out_dflt in_dflt hdr w h d1 d2 with
+  | Response t | RequestTimeoutStatus t => t < e
+  | CallerTimeoutError t => t = e
+  | RaceUnspecified => True
+  end.
+Proof. exact rpc_w_never_exceeds_deadline. Qed.
+
+Theorem C11_times_out_while_waiting_for_a_stream : forall out_dflt in_dflt hdr w h d1 d2 e,
+  effective out_dflt hdr = Some e -> e < w ->
+  rpc_outcome_w out_dflt in_dflt hdr w h d1 d2 = CallerTimeoutError e.
+Proof. exact rpc_w_times_out_while_waiting. Qed.
+
+Theorem C11_no_wait_is_the_plain_call : forall out_dflt in_dflt hdr h d1 d2,
+  (forall e, effective out_dflt hdr = Some e -> 0 < e) ->
+  rpc_outcome_w out_dflt in_dflt hdr 0 h d1 d2 = rpc_outcome out_dflt in_dflt hdr h d1 d2.
+Proof. exact rpc_outcome_w_zero. Qed.
+
 Print Assumptions C11_effective_is_min.
 Print Assumptions C11_effective_no_default.
 Print Assumptions C11_effective_no_header.
@@ -109,3 +131,6 @@ Print Assumptions C11_rpc_response_when_fast.
 Print Assumptions C11_rpc_server_cuts_off.
 Print Assumptions C11_rpc_caller_times_out.
 Print Assumptions C11_rpc_duration_bounded_by_local_default.
+Print Assumptions C11_deadline_covers_stream_wait.
+Print Assumptions C11_times_out_while_waiting_for_a_stream.
+Print Assumptions C11_no_wait_is_the_plain_call.
